@@ -44,7 +44,7 @@ Qed.
 Lemma step_correct : forall L st o st' v,
   coherent L st -> step L st o = (st', v) -> coherent L st' /\ v = pure_value L o.
 Proof.
-  intros L st o st' v Hc H. unfold pure_value. destruct o; simpl in H.
+  intros L st o st' v Hc H. unfold pure_value, pure_value_of. destruct o; simpl in H.
   - (* GetPlaquettes *)
     destruct (access_plaquettes L st) as [s r] eqn:Ea. inversion H; subst.
     destruct (access_plaquettes_correct _ _ _ _ Hc Ea) as (Hc' & _ & _ & _ & Hr). split. exact Hc'.
@@ -116,7 +116,7 @@ Proof. intros L ops. apply run_correct, coherent_init. Qed.
 
 Lemma pure_value_no_attr_error : forall L o, pure_value L o <> VAttrError.
 Proof.
-  intros L o. unfold pure_value. destruct (compute_plaquettes L) as [[[p et] vt]|]; [destruct o|]; discriminate.
+  intros L o. unfold pure_value, pure_value_of. destruct (compute_plaquettes L) as [[[p et] vt]|]; [destruct o|]; discriminate.
 Qed.
 
 (* two histories: the value of an attribute does not depend on which history preceded its access *)
